@@ -673,6 +673,31 @@ def walk_nodes(t, tags, out):
         for x in t: walk_nodes(x, tags, out)
     return out
 
+# query-refinement paths that go through the translator cache; each is ONE code location, applied to the fresh query of every execution.
+# (label, f(query) -> (refined query or None, rows), expectation from the full result sorted by its first column / value)
+def _rid(x): return x[0] if isinstance(x, tuple) else x
+_flt_s = lambda i, v: i > 1        # filter(): arguments are the result columns
+_flt_g = lambda x: x > 1
+_whr_s = lambda s: s.id != 2
+_whr_g = lambda g: g.id != 2
+def refinements(on_s):
+    flt, whr = (_flt_s, _whr_s) if on_s else (_flt_g, _whr_g)
+    def R(label, mk, rows, expect): return (label, mk, rows, expect)
+    return [
+        R('.order_by(1)', lambda q: q.order_by(1), lambda q: q[:][:], lambda e: e),
+        R('.order_by(None)', lambda q: q.order_by(None), lambda q: sorted(q[:]), lambda e: e),
+        R('.order_by(1).order_by(None)', lambda q: q.order_by(1).order_by(None), lambda q: sorted(q[:]), lambda e: e),
+        R('.order_by(-1).order_by(None).order_by(1)', lambda q: q.order_by(-1).order_by(None).order_by(1), lambda q: q[:][:], lambda e: e),
+        R('.filter(lambda id, …: id > 1)', lambda q: q.filter(flt), lambda q: sorted(q[:]), lambda e: [x for x in e if _rid(x) > 1]),
+        R('.where(lambda x: x.id != 2)', lambda q: q.where(whr), lambda q: sorted(q[:]), lambda e: [x for x in e if _rid(x) != 2]),
+        R('.filter(...).order_by(None)', lambda q: q.filter(flt).order_by(None), lambda q: sorted(q[:]), lambda e: [x for x in e if _rid(x) > 1]),
+        R('.without_distinct()', lambda q: q.without_distinct(), lambda q: sorted(q[:]), lambda e: e),
+        R('.order_by(1)[:2]', lambda q: q.order_by(1), lambda q: q[:2][:], lambda e: e[:2]),
+        R('.order_by(1).limit(2, offset=1)', lambda q: q.order_by(1).limit(2, offset=1), lambda q: q[:][:], lambda e: e[1:3]),
+        R('.order_by(1).first()', lambda q: q.order_by(1), lambda q: [q.first()], lambda e: [e[0] if e else None]),
+        R('.order_by(None).count()-vs-len', lambda q: q.order_by(None), lambda q: [len(q[:])], lambda e: [len(e)]),
+    ]
+
 def repeat_oracle(ctx):
     rng = ctx.rng
     db, G, S, data = make_repeat_db(rng, ctx)
@@ -687,6 +712,7 @@ def repeat_oracle(ctx):
             elif '[n]' in label: seq = list(idx) + [rng.choice([-4, -2, -1, 0, 1, 2, 3]) for _ in range(ctx.scale(4, 40))]
             else: seq = list(singles) + [rng.choice([None, -6, -3, -1, 0, 1, 2, 4, 9]) for _ in range(ctx.scale(4, 40))]
             history = []
+            refs = refinements(on_s=label.startswith('top'))
             for vals in seq:
                 vals = vals if isinstance(vals, tuple) else (vals,)
                 if '[n]' in label and vals[0] is None: continue
@@ -710,11 +736,36 @@ def repeat_oracle(ctx):
                     else:
                         stale.append(dict(label=label, src=src, history=list(history), vals=list(vals), observed=got, expected=exp,
                                           first_run_alone=None))
-                # ---- tie: the ROOT translator records every pinned parameter with its CURRENT value
-                t = q._translator
                 names = ('a', 'b') if arity == 2 else ('n',)
                 used = [nm for nm in names if (nm + ':' in src or ':' + nm in src or '[' + nm + ']' in src)]
                 want = {nm: v for nm, v in zip(names, vals) if nm in used and v is not None}
+                # ---- the same execution through every refinement path that consults the translator cache
+                if got == exp:
+                    for rlabel, mk, rows, expect in refs:
+                        q2 = None
+                        try:
+                            q2 = mk(qf(*vals))
+                            rgot = rows(q2)
+                        except Exception as e:
+                            ctx.violation("a well-typed string slice/index query raises when refined, instead of computing Python's result (real SQLite)",
+                                          {'1_query (one code object, called repeatedly)': src + rlabel, '2_parameter_values_of_successive_executions': list(history), '3_failing_execution': list(vals)},
+                                          observed='%s: %s' % (type(e).__name__, str(e)[:160]), expected=expect(exp)[:6], key='sqlite:repeat-raises:%s%s:%s' % (label, rlabel, type(e).__name__))
+                            continue
+                        ctx.case(['repeat-refined', label, rlabel, list(vals), len(history)], kind='oracle:sqlite:repeat-refined:' + rlabel)
+                        if rgot != expect(exp):
+                            stale.append(dict(label=label + rlabel, src=src + rlabel, history=list(history), vals=list(vals), observed=rgot, expected=expect(exp)))
+                        have2 = {}
+                        tr2 = getattr(q2, '_translator', None) or getattr(getattr(q2, '_query', None), '_translator', None)
+                        if tr2 is None: continue
+                        for k, v in tr2.fixed_param_values.items():
+                            nm = k[1] if isinstance(k, tuple) and len(k) > 1 else str(k)
+                            if nm in names: have2[nm] = v
+                        if have2 != want:
+                            ctx.divergence("the translator a refined query uses does not record the CURRENT values of the pinned slice/index parameters "
+                                           "(obligations C25_pinned_recorded / C25_cache_reuse_sound: a cached translation may be reused only after this comparison)",
+                                           {'query': src + rlabel, 'values': list(vals), 'history': list(history)}, model=want, impl=have2)
+                # ---- tie: the ROOT translator records every pinned parameter with its CURRENT value
+                t = q._translator
                 have = {}
                 for k, v in t.fixed_param_values.items():
                     nm = k[1] if isinstance(k, tuple) and len(k) > 1 else str(k)
